@@ -95,6 +95,33 @@ def nullable_enum_cases():
     return out
 
 
+def fractional_integer_enum_cases():
+    """integer enums whose list also holds a value that is not an integer (it can never be matched: the type keyword excludes it): the integral
+    members are exactly the accepted set, wherever the odd value stands in the list - at a required property, an array item and a definition; in
+    particular the odd value's integer part is not a member (repaired defect D57, fixed entry C08-integer-enum-fractional-member)."""
+    from vlib.kitchen import Case
+    out = []
+    n = 0
+    for vals in ([1, 2.5, 3], [0.5, 10, 20], [7, 9, 11.25], [4, 1.5, 6, 8.75, 12], [2.5]):
+        e = {"type": "integer", "enum": vals}
+        root = {"type": "object", "$defs": {"E": e}, "properties": {"level": e, "steps": {"type": "array", "items": e}, "r": {"$ref": "#/$defs/E"}}}
+        members = [v for v in vals if float(v).is_integer()]
+        truncs = set(int(v) for v in vals if not float(v).is_integer())
+        docs = []
+        for v in members:
+            docs.append({"doc": {"level": v}, "cls": "enum-member", "path": ("level",), "expect": "ACC"})
+            docs.append({"doc": {"steps": [v, v]}, "cls": "enum-member", "path": ("steps", 0), "expect": "ACC"})
+            docs.append({"doc": {"r": v}, "cls": "enum-member", "path": ("r",), "expect": "ACC"})
+        if members:
+            docs.append({"doc": {"steps": members + members[::-1]}, "cls": "enum-member", "path": ("steps",), "expect": "ACC"})
+        for v in [x for x in (5, 13, 100, -1) if x not in members] + sorted(t for t in truncs if t not in members) + [x for x in vals if not float(x).is_integer()] + ["1", True]:
+            docs.append({"doc": {"level": v}, "cls": "enum", "path": ("level",), "expect": "REJ"})
+            docs.append({"doc": {"steps": [v]}, "cls": "enum", "path": ("steps", 0), "expect": "REJ"})
+        out.append(Case("c08fe%d" % n, root, docs, fam="integer-enum-with-a-fractional-value/%d" % n))
+        n += 1
+    return out
+
+
 def get_path(doc, path):
     for p in path:
         if isinstance(doc, dict):
@@ -116,7 +143,7 @@ def run(ctx):
     sysm = systematic() + [r for _, r in pairwise(only={"enum"})]
     n = 20 if ctx.tier == "quick" else 300
     cases = build_cases(ctx, len(sysm) + n, ["enum"], CLASSES | {"type"}, "c08x", extra_schemas=sysm, docs_per=2 if ctx.tier == "quick" else 3)
-    ne = nullable_enum_cases()
+    ne = nullable_enum_cases() + fractional_integer_enum_cases()
     run_cases(ctx, cases + ne, "c08")
     nne = 0
     for c in ne:
